@@ -172,10 +172,11 @@ pub fn parse_docs(attrs: &[Attribute]) -> Result<String> {
         .filter_map(|attr| attr.meta.require_name_value().ok())
         .filter(|attr| attr.path.is_ident("doc"))
         .map(|attr| match attr.value {
+            // `*/` inside the documentation would end the JSDoc block early
             Expr::Lit(ExprLit {
                 lit: Lit::Str(ref str),
                 ..
-            }) => Ok(str.value()),
+            }) => Ok(str.value().replace("*/", "*\\/")),
             _ => syn_err!(attr.span(); "doc  with non literal expression found"),
         })
         .collect::<Result<Vec<_>>>()?;
